@@ -21,6 +21,7 @@ M1 = ['a', 'sp', 'dB', 'uB', 'uBt', 'cb', 'rB']
 M2 = ['a', 'dC', 'uC', 'uCo', 'ocb', 'cb']
 M3 = ['a', 'b', 'dD', 'uD', 'dE', 'uE', 'dG', 'uG', 'dB', 'cb', 'uB']
 M4 = ['a', 'dA', 'uA', 'dF', 'uF', 'cb', 'sp', 'nl']
+M6 = ['a', 'sp', 'ltD', 'rA', 'uA', 'dA', 'nl']
 M5 = ['a', 'sp', 'dH', 'uH', 'cb', 'dC', 'uC', 'nl']
 MALL = sorted(set(M1 + M2 + M3 + M4 + M5 + ['fn', 'nl', 'im', 'add']))
 CITEO = ['a', 'sp', 'cto', 'ctc', 'ob', 'cb', 'rbk', 'b']
@@ -35,10 +36,10 @@ DSPALL = sorted(set(DSP3 + DSP2 + ['sp', 'nl', 'mo', 'mc']))
 FAULTS = ['Fim', 'FimE', 'Fdm', 'FdmE', 'FeqE', 'FargE', 'FoptE', 'FvbE', 'FveE', 'Fsk', 'Facc', 'Flt']
 FLT2 = ['ltE', 'ltD', 'uA', 'a', 'b', 'sp', 'nl', 'cm', 'lb', 'uk', 'ob', 'cb', 'fn', 'sec', 'im', 'add', 'it', 'bi', 'ei', 'vb', 'tie', 'skb', 'ske', 'q', 'mo', 'mc', 'my', 'bd', 'ed'] + FAULTS
 EXTR = ['alt', 'acb', 'a', 'b', 'sp', 'nl', 'fn', 'xo', 'cap', 'cb', 'uk', 'ob', 'sec', 'add', 'tc', 'cmf', 'cm', 'skb', 'ske', 'q', 'fnq', 'bl', 'el', 'im', 'ref', 'lb', 'par', 'bi', 'ei', 'it']
-UNKN = ['a', 'sp', 'uk', 'uk2', 'bu', 'eu', 'xo', 'cb', 'ob', 'fn', 'sec', 'add', 'tc', 'cmu', 'skb', 'ske', 'q', 'mo', 'mc', 'mal', 'my', 'bd', 'ed', 'dA', 'uA', 'dB', 'uB', 'uC', 'dC', 'lb', 'it', 'bi', 'ei', 'vb']
+UNKN = ['hsu', 'phu', 'a', 'sp', 'uk', 'uk2', 'bu', 'eu', 'xo', 'cb', 'ob', 'fn', 'sec', 'add', 'tc', 'cmu', 'skb', 'ske', 'q', 'mo', 'mc', 'mal', 'my', 'bd', 'ed', 'dA', 'uA', 'dB', 'uB', 'uC', 'dC', 'lb', 'it', 'bi', 'ei', 'vb']
 COPY = ['a', 'b', '.', 'sp', 'nl', 'cm', 'ob', 'cb', 'uk', 'add', 'fbx', 'tc', 'fn', 'cap', 'vb', 'tie', 'nd', 'md', 'lq', 'rq',
         'thin', 'pct', 'amp', 'dol', 'hsh', 'usc', 'lbr', 'rbr', 'lb', 'sec', 'im']
-PROSE = ['alt', 'acb', 'ltD', 'uA', 'up', 'cto', 'ctc', 'a', 'b', '!', 'sp', 'nl', 'cm', 'uk', 'uk2', 'ob', 'cb', 'add', 'tc', 'fn', 'cap', 'sec', 'sub', 'bi', 'ei', 'be', 'ee', 'it',
+PROSE = ['hsu', 'phu', 'alt', 'acb', 'ltD', 'uA', 'up', 'cto', 'ctc', 'a', 'b', '!', 'sp', 'nl', 'cm', 'uk', 'uk2', 'ob', 'cb', 'add', 'tc', 'fn', 'cap', 'sec', 'sub', 'bi', 'ei', 'be', 'ee', 'it',
          'bu', 'eu', 'skb', 'ske', 'q', 'fnq', 'skp', 'bl', 'el', 'lb', 'ix', 'cite', 'ref', 'im', 'imp', 'par', 'bm', 'em']
 GENER = ['dB', 'dC', 'uB', 'uBt', 'uC', 'a', '.', 'sp', 'nl', 'ref', 'cite', 'im', 'imp', 'it', 'bi', 'ei', 'be', 'ee', 'sec', 'sub', 'fn', 'cap', 'cb', 'par', 'bm', 'em', 'lb', 'uk']
 
@@ -61,8 +62,8 @@ CONFIG = {
                           (M1, 8, 2), (M2, 9, 2), (M3, 6, 2), (M4, 7, 2)],
                 sim=(GENER, 300, 3000)),
     'C09': dict(key='c09', focus={'uA', 'uB', 'uBt', 'uC', 'uCo', 'uD', 'uE', 'uG', 'uF'},
-                quick=[(M1, 6, 2), (M2, 7, 2), (M3, 5, 2), (M4, 5, 2), (M5, 5, 2)],
-                thorough=[(M1, 8, 2), (M2, 9, 2), (M3, 6, 2), (M4, 7, 2), (M5, 7, 2), (MALL, 4, 2)],
+                quick=[(M1, 6, 2), (M2, 7, 2), (M3, 5, 2), (M4, 5, 2), (M5, 5, 2), (M6, 5, 1)],
+                thorough=[(M1, 8, 2), (M2, 9, 2), (M3, 6, 2), (M4, 7, 2), (M5, 7, 2), (M6, 7, 1), (MALL, 4, 2)],
                 sim=(MALL, 300, 3000), routes=True),
     'C10': dict(key='c10', focus={'mo', 'mo2'},
                 quick=[(INL1, 7, 2), (INL2, 5, 3), (INL3, 9, 2)],
@@ -81,7 +82,7 @@ CONFIG = {
                 thorough=[(EXTR, 5, 3), (['a', 'sp', 'fn', 'xo', 'cb', 'uk', 'ob', 'cmf', 'sec'], 7, 3)],
                 sim=(EXTR, 300, 3000), variants=[{'extr': 'footnote,xfoo,LTalter'}], mode='extr'),
     'C19': dict(key='c19', focus={'uk', 'uk2', 'bu', 'xo', 'uA', 'uB', 'uC', 'mal', 'cmu'},
-                quick=[(UNKN, 3, 2), (['a', 'uk', 'uk2', 'bu', 'eu', 'fn', 'cb', 'mo', 'mal', 'my', 'mc', 'cmu', 'skb', 'ske', 'uB', 'dB'], 4, 2)],
+                quick=[(UNKN, 3, 2), (['hsu', 'phu', 'a', 'uk', 'uk2', 'bu', 'eu', 'fn', 'cb', 'mo', 'mal', 'my', 'mc', 'cmu', 'skb', 'ske', 'uB', 'dB'], 4, 2)],
                 thorough=[(UNKN, 4, 3), (['a', 'uk', 'uk2', 'bu', 'eu', 'fn', 'cb', 'mo', 'mal', 'my', 'mc', 'cmu', 'skb', 'ske', 'uB', 'dB'], 6, 2)],
                 sim=(UNKN, 300, 3000), variants=[{'unkn': True}, {'unkn': True, 'pack': '*'}, {'unkn': True, 'repl': ['foo & zzz', 'unk & a b', 'bar mb & x']}]),
     'C05': dict(key='c05', focus={'sp', 'nl', 'cm', 'tab', 'par', 'bm', 'bl', 'skb', 'lb', 'uk'},
@@ -104,7 +105,7 @@ def project(rec):
     return d
 
 
-DEFSYMS = {'dA', 'dB', 'dC', 'dD', 'dE', 'dF', 'dG', 'rB', 'dH'}
+DEFSYMS = {'rA', 'dA', 'dB', 'dC', 'dD', 'dE', 'dF', 'dG', 'rB', 'dH'}
 
 
 def drive_routes(case):
